@@ -23,6 +23,10 @@ impl<'a> TryFrom<Value> for KeyType<'a> {
         match value {
             Value::Null => Ok(Self::Null),
             Value::String(s) => Ok(Self::String(Cow::from(s))),
+            // Integers above the i64 range can only name an object key.
+            Value::Number(ref n) if n.is_u64() && !n.is_i64() => {
+                Ok(Self::String(Cow::from(n.to_string())))
+            }
             Value::Number(n) => Ok(Self::Number(n.as_i64().ok_or_else(|| {
                 Error::InvalidVariableKey {
                     value: Value::Number(n),
@@ -43,6 +47,10 @@ impl<'a> TryFrom<&'a Value> for KeyType<'a> {
         match value {
             Value::Null => Ok(Self::Null),
             Value::String(s) => Ok(Self::String(Cow::from(s))),
+            // Integers above the i64 range can only name an object key.
+            Value::Number(n) if n.is_u64() && !n.is_i64() => {
+                Ok(Self::String(Cow::from(n.to_string())))
+            }
             Value::Number(n) => Ok(Self::Number(n.as_i64().ok_or_else(|| {
                 Error::InvalidVariableKey {
                     value: value.clone(),
